@@ -207,6 +207,37 @@ func genC06(seed uint64, part string) *Scenario {
 	switch part {
 	case "manual", "pop":
 		ops := mkOps(r.Range(10, 120))
+		if part == "pop" {
+			// bars queued after a bar that has finished already: right after it
+			// finished, one, two (between its second terminal frame and its pop
+			// frame) or more frames later
+			for k := 0; k < r.Range(0, 3); k++ {
+				p := r.Intn(n)
+				if sc.Bars[p].NoPop || sc.Bars[p].After >= 0 {
+					continue
+				}
+				nb := simpleBar(int64(r.Pick(5, 100)))
+				nb.Filler = "nop"
+				nb.After = p
+				nb.AddBy = 0
+				sc.Bars = append(sc.Bars, nb)
+				si := len(sc.Bars) - 1
+				at := r.Intn(len(ops) + 1)
+				var ins []Op
+				ins = append(ins, g.finishOp(p, sc.Bars[p])...)
+				for x := 0; x < r.Pick(0, 1, 2, 2, 2, 3, 5); x++ {
+					ins = append(ins, step())
+				}
+				ins = append(ins, Op{K: "add", B: si}, step(), step(), step())
+				ops = append(append(append([]Op(nil), ops[:at]...), ins...), ops[at:]...)
+			}
+			// and finish a few more bars afterwards so that later bars have to rise above
+			for k := 0; k < r.Range(1, 4); k++ {
+				bi := r.Intn(n)
+				ops = append(ops, g.finishOp(bi, sc.Bars[bi])...)
+				ops = append(ops, step(), step(), step())
+			}
+		}
 		for k := 0; k < 4; k++ {
 			ops = append(ops, step())
 		}
